@@ -75,6 +75,7 @@ struct Agg {
     /// key -> (history length, what, replay, occurrences)
     vio: BTreeMap<String, (usize, String, Value, u64)>,
     samples: Vec<Value>,
+    flaky: Vec<Value>,
     capped: bool,
     nondet: bool,
 }
@@ -89,7 +90,7 @@ impl Agg {
             "execs": self.execs, "transitions": self.transitions,
             "outcomes": self.outcomes, "counters": self.counters,
             "vio": self.vio.iter().map(|(k, (l, w, r, n))| json!({"key": k, "len": l, "what": w, "replay": r, "n": n})).collect::<Vec<_>>(),
-            "samples": self.samples, "capped": self.capped, "nondet": self.nondet,
+            "samples": self.samples, "flaky": self.flaky, "capped": self.capped, "nondet": self.nondet,
         })
     }
 
@@ -111,6 +112,11 @@ impl Agg {
         for smp in v["samples"].as_array().into_iter().flatten() {
             if self.samples.len() < 8 {
                 self.samples.push(smp.clone());
+            }
+        }
+        for f in v["flaky"].as_array().into_iter().flatten() {
+            if self.flaky.len() < 12 {
+                self.flaky.push(f.clone());
             }
         }
         self.capped |= v["capped"].as_bool().unwrap_or(false);
@@ -338,7 +344,7 @@ const DRIVERS: [DriverType; 2] = [DriverType::IoUring, DriverType::Poll];
 fn stream_layers(tier: Tier) -> Vec<(&'static str, usize)> {
     match tier {
         Tier::Quick => vec![("send-deep", 5), ("recv-deep", 5), ("send-cross", 2), ("recv-cross", 3), ("duplex", 4)],
-        Tier::Thorough => vec![("send-deep", 7), ("recv-deep", 7), ("send-cross", 3), ("recv-cross", 4), ("duplex", 6)],
+        Tier::Thorough => vec![("send-deep", 6), ("recv-deep", 6), ("send-cross", 3), ("recv-cross", 4), ("duplex", 5)],
     }
 }
 
@@ -349,6 +355,16 @@ fn dgram_layers(tier: Tier) -> Vec<(&'static str, usize)> {
     }
 }
 
+/// TCP runs one step shallower than Unix in the layers where that saves most (same compio code
+/// path, several times the cost per execution, no back-pressure across steps on TCP)
+fn stream_depth(tier: Tier, layer: &str, depth: usize, tr: Transport) -> usize {
+    let shallower = match tier {
+        Tier::Quick => layer.ends_with("-deep"),
+        Tier::Thorough => layer.ends_with("-cross"),
+    };
+    if tr == Transport::Tcp && shallower { depth - 1 } else { depth }
+}
+
 fn make_units(tier: Tier) -> Vec<Unit> {
     let mut units: Vec<Unit> = Vec::new();
     for (layer, depth) in stream_layers(tier) {
@@ -356,7 +372,7 @@ fn make_units(tier: Tier) -> Vec<Unit> {
             for tr in [Transport::Tcp, Transport::Unix] {
                 // quick: the deep layers run one step shallower on TCP (same compio code path as
                 // Unix, several times the cost per execution, and no back-pressure across steps)
-                let depth = if tier == Tier::Quick && tr == Transport::Tcp && layer.ends_with("-deep") { depth - 1 } else { depth };
+                let depth = stream_depth(tier, layer, depth, tr);
                 let alpha = stream_alphabet(layer, 1 << 20);
                 let n_init = alpha.iter().filter(|s| !matches!(s, Step::PeerRecvAll)).count();
                 for c0 in 0..n_init as u32 {
@@ -454,21 +470,26 @@ fn exec_checked(par: &Params, unit: &Unit, ch: &mut Pk, cache: &mut rt::RtCache,
     };
     let (mut out, reused) = run(ch, cache);
     if !out.found.is_empty() {
+        // confirmation run: same choices, fresh runtime, three times the hang limit
         cache.retire(unit.drv);
-        if reused {
-            let mut ch2 = Pk::new(ch.choices());
-            let (out2, _) = run(&mut ch2, cache);
-            cache.retire(unit.drv);
-            agg.count("findings-rechecked-on-fresh-runtime", 1);
-            let keys2: BTreeSet<&String> = out2.found.iter().map(|f| &f.key).collect();
-            for f in out.found.iter_mut() {
-                if !keys2.contains(&f.key) {
-                    agg.count("findings-not-reproduced-on-fresh-runtime", 1);
-                    f.key = format!("{}:only-on-reused-runtime", f.key);
-                    f.what = format!("{} (NOT reproduced when the same choices ran on a fresh runtime)", f.what);
-                }
+        let mut ch2 = Pk::new(ch.choices());
+        rt::set_limit_scale(3);
+        let (out2, _) = run(&mut ch2, cache);
+        rt::set_limit_scale(1);
+        cache.retire(unit.drv);
+        agg.count("findings-confirmation-runs", 1);
+        let keys2: BTreeSet<String> = out2.found.iter().map(|f| f.key.clone()).collect();
+        // a finding that the confirmation run does not reproduce is recorded as a flaky
+        // observation (evidence: `flaky_observations`), not as a violation
+        let (kept, flaky): (Vec<Found>, Vec<Found>) = std::mem::take(&mut out.found).into_iter().partition(|f| keys2.contains(&f.key));
+        for f in flaky {
+            agg.count("findings-not-reproduced", 1);
+            agg.count(&format!("flaky:{}{}", f.key, if reused { ":first-seen-on-reused-runtime" } else { "" }), 1);
+            if agg.flaky.len() < 4 {
+                agg.flaky.push(json!({"key": f.key, "what": f.what, "steps": out.steps, "choices": ch.choices()}));
             }
         }
+        out.found = kept;
     }
     out
 }
@@ -498,6 +519,11 @@ fn explore_unit(par: &Params, unit: &Unit, agg: &mut Agg, cur: &mut Option<std::
                 break;
             }
             agg.count("nondeterministic-enabledness", 1);
+            agg.count(&format!("nondeterministic-enabledness:{}:{}:{}", unit.family, unit.layer, unit.cfg_name()), 1);
+            if agg.flaky.len() < 4 {
+                agg.flaky.push(json!({"key": "nondeterministic-enabledness", "unit": format!("{} {} {}", unit.family, unit.layer, unit.cfg_name()),
+                    "prefix": prefix, "reached": ch.choices(), "steps_before_divergence": out.steps, "trace": out.trace}));
+            }
             agg.nondet = true;
         } else {
             agg.record(unit, ch.choices(), out, false);
@@ -724,7 +750,7 @@ fn main() {
         "drivers": ["io_uring", "polling"],
         "stream-A": {
             "transports": ["tcp-loopback", "unix-stream"],
-            "note": "quick: the two -deep layers run with depth - 1 on TCP",
+            "note": "on TCP the -deep layers (quick) / the -cross layers (thorough) run with depth - 1",
             "layers": layers.iter().map(|(l, d)| json!({"layer": l, "depth": d, "alphabet": stream_alphabet(l, 99999).iter().map(|s| s.name()).collect::<Vec<_>>() })).collect::<Vec<_>>(),
         },
         "dgram-A": {
@@ -761,6 +787,33 @@ fn finish(report: Report, agg: Agg, full: bool) -> ! {
         report.outcome(o.clone());
     }
     report.extra("outcome_list", json!(agg.outcomes));
+    report.extra("flaky_observations", json!(agg.flaky));
+    if full {
+        // branches the exploration is supposed to reach (otherwise the run is vacuous)
+        let reach: [(&str, &[&str]); 16] = [
+            ("stream: partial send on TCP", &["stream-A:tcp/", "[big]", "=partial"]),
+            ("stream: partial send on Unix", &["stream-A:unix/", "[big]", "=partial"]),
+            ("stream: send left pending by a full buffer (Unix)", &["stream-A:unix/", "send=", "=pending"]),
+            ("stream: receive issued before the data", &["stream-A:", "recv=", "=pending"]),
+            ("stream: end of stream after the peer's shutdown", &["stream-A:", "recv=", "=eof"]),
+            ("stream: multishot receive out of pool buffers (io_uring)", &["stream-A:", "/uring", "recv=Multi", "ResourceBusy"]),
+            ("stream: zero-copy send", &["stream-A:tcp/uring", "send=Zc", "=full"]),
+            ("stream: shutdown through a borrowed write half", &["shutdown+split=ok"]),
+            ("stream: receive through owned halves", &["recv=", "+into_split=data"]),
+            ("datagram: cut to the capacity", &["dgram-A:", "+cut=ok"]),
+            ("datagram: zero-length datagram", &["dgram-A:", "+empty="]),
+            ("datagram: receive issued before the datagram", &["dgram-A:", "=pending"]),
+            ("datagram: zero-copy send", &["dgram-A:", "send=ToZc", "=ok"]),
+            ("accept: call issued before the connection", &["accept:", "=pending"]),
+            ("accept: multishot incoming() yields", &["accept:", "incoming=yield"]),
+            ("duplex: reader and writer both finish", &["duplex-B:", "=ok"]),
+        ];
+        for (name, pats) in reach {
+            report.must_reach(name);
+            let n = agg.outcomes.iter().filter(|o| pats.iter().all(|p| o.contains(p))).count();
+            report.count(name, n as u64);
+        }
+    }
     for (k, n) in &agg.counters {
         report.count(k, *n);
     }
@@ -778,7 +831,6 @@ fn finish(report: Report, agg: Agg, full: bool) -> ! {
         report.count(&format!("violation-occurrences:{key}"), n);
         report.violation(Violation { key, what, replay });
     }
-    let _ = full;
     report.rule("every sequence of enabled harness steps up to the stated depth over the stated alphabet, for each (driver, transport, layer), each run on a fresh runtime and fresh sockets; distinct_nontrivial = distinct (configuration, operation class, result class) observations");
     report.finish()
 }
